@@ -124,3 +124,5 @@ func H_C01_literals() {
 		verifAssert(specBoolConstIs(out, b), "a bool literal denotes its value")
 	}
 }
+
+var wideSlotNames = []string{"w0", "w1", "w2", "w3", "w4", "w5", "w6", "w7", "w8", "w9", "w10"}
